@@ -15,6 +15,7 @@ import (
 	"github.com/taurusgroup/multi-party-sig/protocols/cmp"
 	"github.com/taurusgroup/multi-party-sig/protocols/doerner"
 	"github.com/taurusgroup/multi-party-sig/protocols/frost"
+	"github.com/taurusgroup/multi-party-sig/verif/adv"
 	"github.com/taurusgroup/multi-party-sig/verif/detproto"
 	"github.com/taurusgroup/multi-party-sig/verif/fx"
 	"github.com/taurusgroup/multi-party-sig/verif/sim"
@@ -143,6 +144,7 @@ type c17Plan struct {
 	stopAt   string // none | before | mid | end | after | twice
 	post     int
 	usePool  bool
+	poison   bool // a feeder hands the handler a peer message with one field replaced by CBOR null (exercises the panic-recovery path under concurrency)
 }
 
 func c17Cases(env vk.Env) []vk.Case {
@@ -153,12 +155,17 @@ func c17Cases(env vk.Env) []vk.Case {
 	for rep := 0; rep < env.Pick(2, 30); rep++ {
 		for _, p := range protos {
 			for _, st := range stops {
-				pl := c17Plan{proto: p, feeders: 1 + (i % 4), stopAt: st, post: i % 5}
+				pl := c17Plan{proto: p, feeders: 1 + (i % 4), stopAt: st, post: i % 5, poison: i%3 == 2 || (strings.HasPrefix(p, "doerner") && i%3 == 1)}
 				i++
 				pl2, idx := pl, i
 				cs = append(cs, vk.Case{ID: fmt.Sprintf("%s/f%d/stop-%s/%d", p, pl.feeders, st, idx), Run: func(t *vk.T) { c17Run(t, pl2, idx) }})
 			}
 		}
+	}
+	for k := 0; k < env.Pick(12, 60); k++ { // recovery from a panicking message while other goroutines are inside the handler
+		pl := c17Plan{proto: []string{"doerner-keygen", "doerner-sign", "frost-sign"}[k%3], feeders: 2 + k%3, stopAt: []string{"none", "mid", "none", "end"}[k%4], post: k % 3, poison: true}
+		k := k
+		cs = append(cs, vk.Case{ID: fmt.Sprintf("%s/poison/f%d/stop-%s/%d", pl.proto, pl.feeders, pl.stopAt, k), Run: func(t *vk.T) { c17Run(t, pl, 2000+k) }})
 	}
 	for k := 0; k < env.Pick(2, 16); k++ {
 		pl := c17Plan{proto: "cmp-sign", feeders: 2 + k%3, stopAt: []string{"none", "mid", "after", "twice"}[k%4], post: k % 5, usePool: true}
@@ -256,6 +263,7 @@ func c17Run(t *vk.T, pl c17Plan, idx int) {
 		closedAt[id] = new(int64) // filled before any goroutine starts: the monitor's own state must not race
 	}
 	var sessionOver int32
+	poisonBudget, poisoned := int64(3), int64(0)
 	// drainers
 	for _, id := range ids {
 		id := id
@@ -307,6 +315,20 @@ func c17Run(t *vk.T, pl c17Plan, idx int) {
 						return
 					case b := <-inbox[id]:
 						m := sim.Decode(b)
+						if pl.poison && rr.Intn(3) == 0 && atomic.AddInt64(&poisonBudget, -1) >= 0 {
+							if vs, err := adv.Variants(m.Data, 3, false); err == nil {
+								var nulls []adv.Variant
+								for _, v := range vs {
+									if v.Mutation == "null" {
+										nulls = append(nulls, v)
+									}
+								}
+								if len(nulls) > 0 {
+									m.Data = nulls[rr.Intn(len(nulls))].Data
+									atomic.AddInt64(&poisoned, 1)
+								}
+							}
+						}
 						w.do(f, "canaccept", func() string { return fmt.Sprint(w.h.CanAccept(m)) })
 						w.do(f, "accept", func() string { w.h.Accept(m); return "" })
 						atomic.AddInt64(&deliveries, 1)
@@ -438,7 +460,8 @@ func c17Run(t *vk.T, pl c17Plan, idx int) {
 		}
 	}
 	t.Obs("evaluations", 1)
-	tag := fmt.Sprintf("%s feeders=%d stop=%s at %q post=%d", pl.proto, pl.feeders, pl.stopAt, stopTarget, pl.post)
+	t.Obs("poisoned_messages_delivered", atomic.LoadInt64(&poisoned))
+	tag := fmt.Sprintf("%s feeders=%d stop=%s at %q post=%d poison=%v", pl.proto, pl.feeders, pl.stopAt, stopTarget, pl.post, pl.poison)
 	if !ended && pl.stopAt == "none" {
 		t.Inconclusive("%s: session did not end within the wall-clock bound", tag)
 	}
@@ -514,6 +537,9 @@ func c17Run(t *vk.T, pl c17Plan, idx int) {
 			}
 		}
 		final := ww.state()
+		if strings.Contains(final, "panic while processing") {
+			t.Obs("sessions_ended_by_recovered_panic|"+pl.proto, 1)
+		}
 		if closedTs == 0 && final != "running" && final != "BLOCKED" && final != "SKIPPED" && final != "TIMEOUT" {
 			t.Violation(pl.proto+"|terminal-but-channel-open|stop="+pl.stopAt, "%s: %q is terminal (%s) but its outgoing channel was never closed", tag, id, truncStr(final, 60))
 		}
@@ -571,7 +597,7 @@ func c17Run(t *vk.T, pl c17Plan, idx int) {
 	if emittedAfterEnd > 0 {
 		t.Violation(pl.proto+"|message-emitted-after-close", "%s: %d messages appeared on an outgoing channel after it was seen closed", tag, emittedAfterEnd)
 	}
-	t.Distinct("%s|feeders=%d|stop=%s|post=%d", pl.proto, pl.feeders, pl.stopAt, pl.post)
+	t.Distinct("%s|feeders=%d|stop=%s|post=%d|poison=%v", pl.proto, pl.feeders, pl.stopAt, pl.post, pl.poison)
 	if idx%17 == 0 {
 		w0 := wraps[ids[0]]
 		w0.mu.Lock()
